@@ -228,6 +228,14 @@ type logKey struct {
 }
 
 func (k Knobs) config(root string) *core.BlockChainConfig {
+	return k.configWait(root, true)
+}
+
+// configWait: the uncrashed node waits for the snapshot generator when it opens
+// (keeps the generator's progress writes out of the way of the main goroutine's);
+// a reboot on a crash image must not: a generator that stops on a missing trie
+// node would make NewBlockChain wait forever (SnapshotWait is a test-only knob).
+func (k Knobs) configWait(root string, snapshotWait bool) *core.BlockChainConfig {
 	cfg := &core.BlockChainConfig{
 		TrieCleanLimit:   1,
 		TrieDirtyLimit:   1,
